@@ -84,7 +84,8 @@ MayRemove(f, table, o) ==
 MayBecome(f, g, table, o) ==
     /\ SameButProps(f, g)
     /\ LET rows == IF PropHas(f.props, o.idfield) THEN RowsFor(table, ValText(PropGet(f.props, o.idfield))) ELSE {} IN
-       IF rows = {} THEN PSet(g.props) = PSet(f.props)                 \* untouched
+       \* no row: the feature stays as it is -- unless unmatched features are to be removed and it HAS the id field
+       IF rows = {} THEN PSet(g.props) = PSet(f.props) /\ ~(o.remove = 1 /\ PropHas(f.props, o.idfield))
        ELSE \E r \in rows :
                PropsAgree(PSet(g.props),
                           IF o.replace = 1 THEN PSet(table[r].props) ELSE PSet(PropUpdate(f.props, table[r].props)),
